@@ -124,7 +124,7 @@ Lemma ideal_none_none e : ideal_e e None None = true.
 Proof. destruct e; reflexivity. Qed.
 
 Lemma tree_ok_none e : tree_ok e None = true.
-Proof. unfold tree_ok. cbn [opt_guard opt_sat negb andb]. apply orb_true_r. Qed.
+Proof. unfold tree_ok. cbn [opt_guard opt_wide negb andb]. apply orb_true_r. Qed.
 
 (* ---------- operations against the ideal stream ---------- *)
 Definition proj (c : cchange cval) : string * option cval := (cc_id c, cc_new c).
@@ -303,8 +303,8 @@ Definition coll_scope (c : c16case) : bool :=
   | KColl e _ thr init ops _ =>
       negb (has_durp e)
       && (cfg_nd (cfg_vs e)
-          || (forallb (fun p : string * cval => negb (has_sat_duration (snd p))) init
-              && forallb (fun o : collop => negb (opt_sat (snd o))) ops))
+          || (forallb (fun p : string * cval => negb (has_wide_nanos (snd p))) init
+              && forallb (fun o : collop => negb (opt_wide (snd o))) ops))
       && str_nodupb (map fst init)
   | _ => false
   end.
@@ -331,7 +331,7 @@ Proof.
   apply andb_true_iff in G. destruct G as [Gi Go].
   (* every value is tree_ok *)
   assert (Ti : forall p, In p init -> tree_ok e (Some (snd p)) = true).
-  { intros p Hp. unfold tree_ok. rewrite forallb_forall in Gi. rewrite (Gi _ Hp). cbn [andb opt_sat].
+  { intros p Hp. unfold tree_ok. rewrite forallb_forall in Gi. rewrite (Gi _ Hp). cbn [andb opt_wide].
     destruct (cfg_nd (cfg_vs e)); [reflexivity|]. cbn [orb] in *. apply andb_true_iff in Sat. destruct Sat as [Sa _].
     rewrite forallb_forall in Sa. apply (Sa _ Hp). }
   assert (To : forallb (fun o : collop => tree_ok e (snd o)) ops = true).
